@@ -47,6 +47,9 @@ pub fn explore<O: Send>(
     // level-synchronous: frontier of prefixes with k deviations
     let mut frontier: Vec<Vec<usize>> = vec![vec![]];
     for level in 0..=bound {
+        // no more children than could still be executed (the frontier is materialised)
+        let budget = max_executions.saturating_sub(executions.load(Ordering::SeqCst).saturating_add(frontier.len() as u64));
+        let produced = AtomicU64::new(0);
         let next: Vec<Vec<usize>> = frontier
             .par_iter()
             .flat_map_iter(|prefix| {
@@ -89,6 +92,10 @@ pub fn explore<O: Send>(
                 let upto = if level < bound { out.trace.len() } else { 0 };
                 for i in prefix.len()..upto {
                     let (enabled, _) = out.trace[i];
+                    if enabled > 1 && produced.fetch_add(enabled as u64 - 1, Ordering::SeqCst) >= budget {
+                        capped.store(true, Ordering::SeqCst);
+                        break;
+                    }
                     for alt in 1..enabled {
                         let mut p: Vec<usize> = out.trace[..i].iter().map(|c| c.1).collect();
                         p.push(alt);
